@@ -176,6 +176,23 @@ impl SolverProp {
                 }
             }
             Aspect::Not => {
+                // the same program given as source text (rules parsed by parse_rule), when every clause has a faithful
+                // text form: not(...) written in a rule must mean what the API-built operator means
+                if text_presentable(p) && p.clauses.iter().any(|c| c.body.as_ref().map_or(false, |b| b.any(&|g| matches!(g, Goal::Not(_))))) {
+                    let texts: Vec<String> = p.clauses.iter().map(|c| crate::render::clause(c, &crate::render::CANON)).collect();
+                    let run = match run_program_src(p, Some(&texts[..]), cmp.run.answers.len() + 5, 1, tick_budget(st.steps)) {
+                        Ok(Ok(r)) => r,
+                        Ok(Err(msg)) => return fail("parser-rejected", format!("{}:parser-rejected", id), msg, p),
+                        Err(f) => return fail("engine-failure", format!("{}:engine:{}", id, f.signature()), format!("program parsed from text failed: {:?}", f), p),
+                    };
+                    let b: Vec<Vec<Term>> = run.answers.iter().map(|x| x.args.clone()).collect();
+                    if expected.len() != b.len() || !expected.iter().zip(b.iter()).all(|(x, y)| variant(x, y)) {
+                        return fail("answers-differ", format!("{}:text-answers", id), format!("reference: {}
+rules parsed from text: {}", fmt_answers(&expected), fmt_answers(&b)), p);
+                    }
+                    rep.class("also-solved-from-source-text");
+                    if p.clauses.iter().any(|c| c.body.as_ref().map_or(false, |b| b.any(&|g| matches!(g, Goal::Not(x) if matches!(**x, Goal::Not(_)))))) { rep.class("not-directly-inside-not-in-source-text"); }
+                }
                 rep.class_n("not-succeeded", (st.not_succeeded > 0) as u64);
                 rep.class_n("not-failed", (st.not_failed > 0) as u64);
                 if st.not_succeeded > 0 && st.not_failed > 0 {
@@ -193,6 +210,35 @@ impl SolverProp {
                 }
             }
             Aspect::Exhausted => {
+                // the same through the other entry point: solve() until `No more.`, then three more solve() calls on the
+                // same node - each must say `No more.` again and the number of answers must be the query's
+                // (one case in six: every solve() call starts and cancels a timer thread, which costs more than the search)
+                if !cmp.run.truncated && fp % 6 == 0 {
+                    let n_expected = cmp.run.answers.len();
+                    let r = guarded(tick_budget(st.steps) * 3, || -> Vec<String> {
+                        suiron::start_query();
+                        let kb = crate::bridge::build_kb(&p.clauses);
+                        let sn = suiron::make_base_node(std::rc::Rc::new(query_goal(p)), &kb);
+                        let mut v = vec![];
+                        loop { let r = suiron::solve(std::rc::Rc::clone(&sn)); let done = r == "No more."; v.push(r); if done || v.len() > n_expected + 2 { break; } }
+                        for _ in 0..3 { v.push(suiron::solve(std::rc::Rc::clone(&sn))); }
+                        v
+                    });
+                    if crate::capture::active() { let _ = crate::capture::take(); }
+                    match r {
+                        Ok(v) => {
+                            if v.iter().any(|x| x.starts_with("Query timed out")) { return CaseResult::Discard("solve() hit the real 1 s timer (machine overloaded): inconclusive".into()); }
+                            let answers = v.iter().take_while(|x| *x != "No more.").count();
+                            let rest_ok = v[answers..].iter().all(|x| x == "No more.") && v.len() == answers + 4;
+                            if answers != n_expected || !rest_ok {
+                                return fail("exhausted-query-answers-again", format!("{}:reask-solve", id),
+                                    format!("{} answers by next_solution; successive solve() calls on one node returned {:?}", n_expected, v), p);
+                            }
+                            rep.class("also-asked-through-solve");
+                        }
+                        Err(e) => return fail("engine-failure", format!("{}:engine-failure", id), format!("during solve() calls: {:?}", e), p),
+                    }
+                }
                 let interesting = p.clauses.iter().any(|c| c.body.as_ref().map_or(false, |b| b.any(&|g| matches!(g, Goal::Not(_) | Goal::Or(_)))));
                 if st.answers >= 1 && interesting { rep.nontrivial(fp); rep.sample(json!({"program": format!("{}", p), "answers": st.answers, "reasks": 3})); }
                 if st.answers == 0 && interesting { rep.class("exhausted-at-once"); }
@@ -294,7 +340,8 @@ pub fn text_presentable(p: &Program) -> bool {
     fn goal_ok(g: &Goal) -> bool {
         match g {
             Goal::And(gs) | Goal::Or(gs) => gs.len() >= 2 && gs.iter().all(goal_ok),
-            Goal::Not(x) | Goal::Time(x) => matches!(**x, Goal::Call(..)) && goal_ok(x),
+            Goal::Not(x) => (matches!(**x, Goal::Call(..)) || matches!(**x, Goal::Not(_))) && goal_ok(x),
+            Goal::Time(x) => matches!(**x, Goal::Call(..)) && goal_ok(x),
             Goal::Call(n, a) => atom_ok(n) && !crate::render::RESERVED.contains(&n.as_str()) && a.iter().all(term_ok),
             Goal::BuiltIn(_, a) => !a.is_empty() && a.iter().all(term_ok),
             // an operand of an infix stands outside any parentheses, where ; : . < > = % # also have a meaning
